@@ -124,4 +124,137 @@ theorem lookupLast_perm (m₁ m₂ : List (Nat × Nat)) (hp : m₁.Perm m₂) (h
     have h2 : ∀ x ∈ m₂, x.1 ≠ k := fun x hx => h1 x (hp.symm.subset hx)
     rw [lookupLast_none m₁ k h1, lookupLast_none m₂ k h2]
 
+/-! ## generic "last insertion wins" (any key / value types), with an initial prefix -/
+
+/-- the fold of `lookupLastG` started from any accumulator -/
+theorem lookupG_foldl {κ ν : Type} [DecidableEq κ] (l : List (κ × ν)) (k : κ) (acc : Option ν) :
+    l.foldl (fun acc kv => if kv.1 = k then some kv.2 else acc) acc = (lookupLastG l k).or acc := by
+  unfold lookupLastG
+  induction l generalizing acc with
+  | nil => simp
+  | cons a as ih =>
+    simp only [List.foldl]
+    rw [ih, ih (if a.1 = k then some a.2 else none)]
+    cases h : List.foldl (fun acc kv => if kv.1 = k then some kv.2 else acc) none as with
+    | some v => simp
+    | none => by_cases hk : a.1 = k <;> simp [hk]
+
+theorem lookupLastG_append {κ ν : Type} [DecidableEq κ] (p l : List (κ × ν)) (k : κ) :
+    lookupLastG (p ++ l) k = (lookupLastG l k).or (lookupLastG p k) := by
+  show List.foldl _ none (p ++ l) = _
+  rw [List.foldl_append, lookupG_foldl]
+  rfl
+
+theorem lookupLastG_of_mem {κ ν : Type} [DecidableEq κ] (m : List (κ × ν)) (hk : (m.map (·.1)).Nodup)
+    (kv : κ × ν) (h : kv ∈ m) : lookupLastG m kv.1 = some kv.2 := by
+  induction m with
+  | nil => simp at h
+  | cons a as ih =>
+    simp only [List.map_cons, List.nodup_cons] at hk
+    have hsplit : lookupLastG (a :: as) kv.1 = (lookupLastG as kv.1).or (lookupLastG [a] kv.1) :=
+      lookupLastG_append [a] as kv.1
+    rw [hsplit]
+    rcases List.mem_cons.mp h with rfl | h
+    · -- no later entry has this key
+      have hnone : lookupLastG as kv.1 = none := by
+        unfold lookupLastG
+        suffices H : ∀ (l : List (κ × ν)), (∀ x ∈ l, x.1 ≠ kv.1) →
+            l.foldl (fun acc x => if x.1 = kv.1 then some x.2 else acc) none = none from
+          H as (fun x hx he => hk.1 (by rw [← he]; exact List.mem_map_of_mem hx))
+        intro l
+        induction l with
+        | nil => intro _; rfl
+        | cons b bs ihb =>
+          intro hb
+          simp only [List.foldl]
+          have : ¬ b.1 = kv.1 := hb b List.mem_cons_self
+          simp only [this, if_false]
+          exact ihb (fun x hx => hb x (List.mem_cons_of_mem _ hx))
+      rw [hnone]
+      simp [lookupLastG]
+    · rw [ih hk.2 h]; simp
+
+theorem lookupLastG_none {κ ν : Type} [DecidableEq κ] (m : List (κ × ν)) (k : κ)
+    (h : ∀ x ∈ m, x.1 ≠ k) : lookupLastG m k = none := by
+  unfold lookupLastG
+  induction m with
+  | nil => rfl
+  | cons a as ih =>
+    simp only [List.foldl]
+    have : ¬ a.1 = k := h a List.mem_cons_self
+    simp only [this, if_false]
+    exact ih (fun x hx => h x (List.mem_cons_of_mem _ hx))
+
+/-- a map built by inserting entries with pairwise distinct keys does not depend on the order -/
+theorem lookupLastG_perm {κ ν : Type} [DecidableEq κ] (m₁ m₂ : List (κ × ν)) (hp : m₁.Perm m₂)
+    (hk : (m₁.map (·.1)).Nodup) (k : κ) : lookupLastG m₁ k = lookupLastG m₂ k := by
+  have hk2 : (m₂.map (·.1)).Nodup := (hp.map _).nodup_iff.mp hk
+  by_cases h : ∃ kv ∈ m₁, kv.1 = k
+  · obtain ⟨kv, hm, rfl⟩ := h
+    rw [lookupLastG_of_mem m₁ hk kv hm, lookupLastG_of_mem m₂ hk2 kv (hp.subset hm)]
+  · have h1 : ∀ x ∈ m₁, x.1 ≠ k := fun x hx he => h ⟨x, hx, he⟩
+    have h2 : ∀ x ∈ m₂, x.1 ≠ k := fun x hx => h1 x (hp.symm.subset hx)
+    rw [lookupLastG_none m₁ k h1, lookupLastG_none m₂ k h2]
+
+/-- … also after a fixed prefix of earlier insertions (`stack["total"] = …` before the loop) -/
+theorem lookupLastG_prefix_perm {κ ν : Type} [DecidableEq κ] (p m₁ m₂ : List (κ × ν)) (hp : m₁.Perm m₂)
+    (hk : (m₁.map (·.1)).Nodup) (k : κ) : lookupLastG (p ++ m₁) k = lookupLastG (p ++ m₂) k := by
+  rw [lookupLastG_append, lookupLastG_append, lookupLastG_perm m₁ m₂ hp hk k]
+
+/-! ## insertion sort of strings -/
+
+theorem insertStr_perm (x : String) (l : List String) : (insertStr x l).Perm (x :: l) := by
+  induction l with
+  | nil => exact List.Perm.refl _
+  | cons y ys ih =>
+    simp only [insertStr]
+    split
+    · exact List.Perm.refl _
+    · exact (List.Perm.cons y ih).trans (List.Perm.swap x y ys)
+
+theorem sortStr_perm (l : List String) : (sortStr l).Perm l := by
+  induction l with
+  | nil => exact List.Perm.refl _
+  | cons x xs ih =>
+    show (insertStr x (sortStr xs)).Perm (x :: xs)
+    exact (insertStr_perm x _).trans (List.Perm.cons x ih)
+
+theorem str_le_total (a b : String) : a ≤ b ∨ b ≤ a := by
+  by_cases h : b < a
+  · exact Or.inr (fun h2 => String.lt_asymm h h2)
+  · exact Or.inl h
+
+theorem insertStr_sorted (x : String) (l : List String) (h : l.Pairwise (· ≤ ·)) :
+    (insertStr x l).Pairwise (· ≤ ·) := by
+  induction l with
+  | nil => simp [insertStr]
+  | cons y ys ih =>
+    simp only [insertStr]
+    rw [List.pairwise_cons] at h
+    split
+    · rename_i hxy
+      refine List.pairwise_cons.mpr ⟨?_, List.pairwise_cons.mpr h⟩
+      intro z hz
+      rcases List.mem_cons.mp hz with rfl | hz
+      · exact hxy
+      · exact String.le_trans hxy (h.1 z hz)
+    · rename_i hxy
+      have hyx : y ≤ x := (str_le_total x y).resolve_left hxy
+      refine List.pairwise_cons.mpr ⟨?_, ih h.2⟩
+      intro z hz
+      have := (insertStr_perm x ys).subset hz
+      rcases List.mem_cons.mp this with rfl | hz'
+      · exact hyx
+      · exact h.1 z hz'
+
+theorem sortStr_sorted (l : List String) : (sortStr l).Pairwise (· ≤ ·) := by
+  induction l with
+  | nil => simp [sortStr]
+  | cons x xs ih => exact insertStr_sorted x _ ih
+
+/-- two sorted duplicate-free lists of strings with the same elements are the same list -/
+theorem sorted_perm_eq (l₁ l₂ : List String) (hp : l₁.Perm l₂)
+    (s₁ : l₁.Pairwise (· ≤ ·)) (s₂ : l₂.Pairwise (· ≤ ·)) : l₁ = l₂ :=
+  List.Perm.eq_of_pairwise (le := (· ≤ ·)) (fun _ _ _ _ h1 h2 => String.le_antisymm h1 h2) s₁ s₂ hp
+
 end C05
